@@ -384,6 +384,7 @@ pub fn run(args: &Args, rep: &mut Report) {
     let scale = |q: f64, t: f64| (((if thorough { t } else { q }) * args.scale) as u64 / args.nshards as u64).max(1);
     let mut e = Eng { rep, spy: spy.clone(), pools: Pools::new(), orders: BTreeSet::new(), last_digests: BTreeMap::new() };
     let instrumented = args.regime == "miri" || args.regime == "tsan" || args.regime == "valgrind-memcheck";
+    scengen::TINY.store(args.regime == "miri", Ordering::Relaxed);
     BIG_GRAPHS.store(if instrumented { 0 } else if thorough { 2 } else { 1 }, Ordering::Relaxed);
     match args.prop.as_str() {
         "C01" | "C03" | "C06" | "C16" => {
@@ -421,15 +422,19 @@ pub fn run(args: &Args, rep: &mut Report) {
         }
         "C02" => {
             let miri = args.regime == "miri";
-            let pools: &[usize] = if miri { &[1, 3] } else if thorough { &[1, 2, 3, 5, 8, 16] } else { &[1, 2, 5, 16] };
-            let seeds = if miri { 1 } else if thorough { 4 } else { 2 };
-            let n = if miri { 1 } else { scale(2_000.0, 30_000.0) };
+            let pools: &[usize] = if miri { &[1, 3] } else if thorough { &[1, 2, 3, 5, 16] } else { &[1, 2, 5, 16] };
+            let seeds = if miri { 1 } else if thorough { 3 } else { 2 };
+            let n = if miri { 1 } else { scale(2_000.0, 20_000.0) };
             for _ in 0..n {
                 let mut o = opts_for("C02", &mut r);
                 if miri {
                     // the interpreter is ~10^4 times slower: one small scenario per shard
                     o.max_nodes = 4;
                     o.max_solutions = 2;
+                }
+                if instrumented {
+                    o.p_mid_sets = 0.0;
+                    o.p_mid_graphs = 0.0;
                 }
                 let sc = scengen::gen_scenario(&mut r, &o);
                 let mut first: Option<(RealVerdict, usize, u64)> = None;
